@@ -32,11 +32,15 @@ def pixel_input(case):
     form = case["form"]
     n = len(case["table"])
 
+    scale = case.get("scale", 1)
+
     def frame(rows):
         d = {"bin1_id": np.array([r[0] for r in rows], dtype=np.int64),
              "bin2_id": np.array([r[1] for r in rows], dtype=np.int64)}
         for k, name in enumerate(cols):
             d[name] = np.array([r[2 + k] for r in rows], dtype=np.int64)
+            if scale != 1:
+                d[name] = d[name].astype(np.float64) / scale          # exact multiples of 1/scale
         return pd.DataFrame(d)
 
     if form == "frame":
@@ -57,10 +61,10 @@ def pixel_input(case):
         return [frame(c) for c in split(px, case["chunks"])], {"ordered": True}
     if form == "array":
         from cooler.create import ArrayLoader
-        a = np.zeros((n, n), dtype=np.int64)
+        a = np.zeros((n, n), dtype=np.int64 if scale == 1 else np.float64)
         for i, j, v in px:
-            a[i, j] = v
-            a[j, i] = v
+            a[i, j] = v / scale if scale != 1 else v
+            a[j, i] = a[i, j]
         return ArrayLoader(gen.bins_frame(case["table"]), a, case["chunksize"]), {"ordered": True}
     raise ValueError(form)
 
@@ -89,7 +93,9 @@ def cr_roundtrip(case, ctx):
     extra = {}
     if cols != ["count"]:
         extra["columns"] = cols
-    if DTYPES[case["dt"]] is not None:
+    if case.get("scale", 1) != 1:
+        extra["dtypes"] = {k: "float64" for k in cols}
+    elif DTYPES[case["dt"]] is not None:
         extra["dtypes"] = {k: v for k, v in DTYPES[case["dt"]].items() if k in cols}
     if H5OPTS[case["h5"]] is not None:
         extra["h5opts"] = H5OPTS[case["h5"]]
@@ -97,7 +103,23 @@ def cr_roundtrip(case, ctx):
         extra["assembly"] = case["assembly"]
     cooler.create_cooler(uri, gen.bins_frame(case["table"]), pixels, metadata=meta,
                          symmetric_upper=case["mode"] == "symm", **kw, **extra)
-    api = open_cooler(case["open"], uri, lambda c: project.api_view(c, cols))
+    sc = case.get("scale", 1)
+    api = open_cooler(case["open"], uri, lambda c: project.api_view(c, cols, sc))
+    if sc != 1:
+        # scale the stored value columns in place so that the raw projection is integral (the exactness is checked)
+        import h5py
+        from cooler.util import parse_cooler_uri
+        fp, gp = parse_cooler_uri(uri)
+        with h5py.File(fp, "r+") as f:
+            g = f[gp]
+            for name in cols:
+                vals = g["pixels"][name][:].astype(np.float64) * sc
+                if not np.array_equal(vals, np.round(vals)):
+                    raise ValueError(f"stored column {name} is not a multiple of 1/{sc}")
+                del g["pixels"][name]
+                g["pixels"].create_dataset(name, data=vals.astype(np.int64))
+            if "sum" in g.attrs:
+                g.attrs["sum"] = int(round(float(g.attrs["sum"]) * sc))
     return {"api": api, "raw": project.raw_uri(uri)}
 
 
